@@ -290,6 +290,8 @@ def task_fn(task: tuple) -> dict:
     part = Part()
     if kind == "chain":
         return chain_task(task, part)
+    if kind == "view":
+        return view_task(task, part)
     _, pattern, max_retry, prog, bound, with_crash = task
     outcomes: set = set()
 
@@ -399,6 +401,93 @@ def chain_task(task: tuple, part: Part) -> dict:
     return part.out()
 
 
+def view_task(task: tuple, part: Part) -> dict:
+    """Generations of k stale trials swept together by ONE worker whose failure callback first reads
+    the study (a logging/reporting callback) and then retries: after every sweep the worker's own
+    view of every trial (through its caching storage) must equal what a fresh client reads from the
+    database, and every retry must carry params, user attrs and retry history of its parent."""
+    _, max_retry, k, reads = task
+    from .sharness import trial_canon
+
+    path = backends.new_sqlite_file()
+    calls: list = []
+    cb = RetryFailedTrialCallback(max_retry=max_retry)
+    holder: dict = {}
+
+    def callback(study: Any, trial: Any) -> None:
+        calls.append(trial.number)
+        if reads:
+            holder["seen"] = len(study.get_trials(deepcopy=False))
+        cb(study, trial)
+
+    st = backends.open_rdb(path, heartbeat_interval=1, grace_period=1, failed_trial_callback=callback)
+    try:
+        study = optuna.create_study(storage=st, study_name="c19v", sampler=optuna.samplers.RandomSampler(seed=0))
+        key = f"view|k={k}|reads={int(reads)}"
+        expect_hist: dict[int, list] = {}
+        n_gen = (max_retry if max_retry is not None else 2) + 2
+        for gen in range(n_gen):
+            running = []
+            for _ in range(k):
+                t = study.ask()
+                v = t.suggest_float("x", 0, 1)
+                if gen == 0:
+                    t.set_user_attr("u", [t.number])
+                    expect_hist[t.number] = []
+                running.append(t)
+            for t in running:
+                study._storage.record_heartbeat(t._trial_id)
+                backdate(path, t._trial_id)
+            n_before = len(study.get_trials(deepcopy=False))
+            fail_stale_trials(study)
+            part.add("transitions")
+            # the worker's view against the database
+            fresh = backends.open_rdb(path)
+            try:
+                truth = [trial_canon(x, None) for x in fresh.get_all_trials(study._study_id, deepcopy=False)]
+            finally:
+                fresh.engine.dispose()
+            for getter, view in (("get_trials", [trial_canon(x, None) for x in study.get_trials(deepcopy=False)]),
+                                 ("storage.get_trial", [trial_canon(study._storage.get_trial(x._trial_id), None) for x in study.get_trials(deepcopy=False)])):
+                if view != truth:
+                    bad = [i for i, (a, b) in enumerate(zip(view, truth)) if a != b]
+                    part.violation(f"{key}|sweeper's-own-view-differs-from-the-database|{getter}",
+                                   {"max_retry": max_retry, "generation": gen, "trials": bad,
+                                    "view": [dict(view[i]).get("system_attrs") for i in bad][:3],
+                                    "database": [dict(truth[i]).get("system_attrs") for i in bad][:3]})
+            trials = study.get_trials(deepcopy=False)
+            new = trials[n_before:]
+            for t in running:
+                if trials[t.number].state != TrialState.FAIL:
+                    part.violation(f"{key}|stale-trial-not-failed", {"max_retry": max_retry, "generation": gen})
+                hist = expect_hist[t.number] + [t.number]
+                kids = [x for x in new if x.system_attrs.get("retry_history") == hist]
+                allowed = 1 if (max_retry is None or len(hist) <= max_retry) else 0
+                if len(kids) != allowed:
+                    part.violation(f"{key}|wrong-number-of-retries-or-wrong-retry-history",
+                                   {"max_retry": max_retry, "generation": gen, "parent": t.number, "expected_history": hist,
+                                    "new": [(x.number, x.system_attrs.get("retry_history")) for x in new]})
+                for x in kids:
+                    expect_hist[x.number] = hist
+                    if x.params != trials[t.number].params or x.distributions != trials[t.number].distributions \
+                            or x.user_attrs != trials[t.number].user_attrs \
+                            or x.system_attrs.get("failed_trial") != hist[0]:
+                        part.violation(f"{key}|retry-does-not-carry-its-parent's-fields", {"max_retry": max_retry, "parent": t.number, "retry": x.number})
+            if len(new) != sum(1 for t in running if (max_retry is None or len(expect_hist[t.number]) + 1 <= max_retry)):
+                part.violation(f"{key}|wrong-number-of-retries-or-wrong-retry-history", {"max_retry": max_retry, "generation": gen, "new": len(new)})
+            if not new:
+                break
+        if len(calls) != len(set(calls)):
+            part.violation(f"{key}|callback-twice-for-one-trial", {"calls": calls})
+        part.add("executions")
+        part.add("states")
+        part.add("scenarios")
+    finally:
+        st.engine.dispose()
+        os.unlink(path)
+    return part.out()
+
+
 def replay_case(raw: dict, part: Part) -> None:
     backends.setup_determinism()
     backends.sqlite_template()
@@ -428,6 +517,10 @@ def run(tier: str, replay: str | None = None) -> int:
     for max_retry in (0, 1, 2, None):
         for pattern in ("plain", "enqueued"):
             tasks.append(("chain", max_retry, pattern))
+    for max_retry in (0, 1, 2, None):
+        for k in (1, 2, 3):
+            for reads in (False, True):
+                tasks.append(("view", max_retry, k, reads))
     pmap(ctx, task_fn, tasks)
     ctx.assumptions += [
         "heartbeats exist only on RDB: SQLite on /dev/shm; statement-level scheduling with the single-writer lock modelled (vf/sqlx.py)",
@@ -437,7 +530,7 @@ def run(tier: str, replay: str | None = None) -> int:
     backends.cleanup_root()
     return ctx.finish(
         exhaustive=not ctx.cov.get("caps_hit"),
-        rule="trial patterns {plain, enqueued, two stale} x max_retry {0,1,None} x worker programs (sweep|sweep, sweep|ask; thorough: 5 programs incl. 3 workers) x all SQL-statement interleavings up to the preemption bound; death of worker 0 before every statement of its sweep; sequential retry chains up to max_retry+2",
+        rule="trial patterns {plain, enqueued, two stale} x max_retry {0,1,None} x worker programs (sweep|sweep, sweep|ask; thorough: 5 programs incl. 3 workers) x all SQL-statement interleavings up to the preemption bound; death of worker 0 before every statement of its sweep; sequential retry chains up to max_retry+2; generations of 1-3 stale trials swept together by one caching worker whose callback reads the study, view compared with the database after every sweep",
     )
 
 
